@@ -1,5 +1,6 @@
 pub mod engine;
 pub mod gen;
+pub mod patterns;
 pub mod props;
 pub mod refmodel;
 pub mod tape;
